@@ -198,6 +198,19 @@ def run(engine_name, tier, seed, workers, only_selftest=False):
         "stubbed_components": engine.STUBBED,
     }
     coverage.update(pre_info)
+    # determinism of the harness itself: a few families of this run again, twice each, in two fresh
+    # interpreters with different PYTHONHASHSEED / thread limits; every digest list must coincide
+    selftest_bad = 0
+    if os.environ.get("VERIF_SELFTEST", "1") != "0":
+        from . import selftest
+
+        n_self = 4 if tier == "quick" else 24
+        idxs = sorted({(seed * 7 + 13 * k) % max(1, count) for k in range(n_self)})
+        fam, comps, mism = selftest.compare(engine_name, seed, tier, idxs)
+        selftest_bad = len(mism)
+        coverage["determinism_selftest"] = {"families": fam, "digest_list_comparisons": comps, "mismatches": selftest_bad, "how": "same family twice per interpreter, two interpreters (PYTHONHASHSEED 0 / 424242, OMP_THREAD_LIMIT changed)"}
+        for m in mism[:3]:
+            print("HARNESS-ERROR nondeterministic replay of family %s: %s" % (m.get("idx"), json.dumps(m)[:300]))
     post = getattr(engine, "evidence_extra", None)
     if post:
         coverage.update(post(coverage, sets))
@@ -215,7 +228,7 @@ def run(engine_name, tier, seed, workers, only_selftest=False):
     print("%s %s: %d evaluations in %d families, %d distinct non-trivial digests, %d violations, %d known, %d harness errors, %.0fs" % (prop, tier, evaluations, families, len(digests_nontrivial), len(seen_sigs), len(known_hits), len(harness_errors), wall))
     if seen_sigs:
         return 1
-    if harness_errors or killed or done_lines < workers or evaluations == 0:
+    if harness_errors or killed or done_lines < workers or evaluations == 0 or selftest_bad:
         print("INCOMPLETE: harness errors=%d killed=%d finished workers=%d/%d" % (len(harness_errors), killed, done_lines, workers))
         return 2
     return 0
